@@ -17,7 +17,7 @@ SHARDS = {"quick": 8, "thorough": 16}
 RULE = ("Hypothesis draws structure (nq 1-8, atoms 1-10, 1-6 volumes, 1-6 temperatures from the classes "
         "{0},[0.5,5),[5,2000),[2000,5000] K, weights in [1e-3,1e3], strain fractions in (0.05,0.9) per volume, "
         "Gamma-acoustic slots zero or garbage) and a 32-bit seed that numpy expands into nu in [30,1500] cm^-1, "
-        "gamma in [-3,4], V dgamma/dV in [-5,5], arbitrary pressure fields; non-trivial = at least one T>0, "
+        "gamma in [-3,4], V dgamma/dV in [-5,5], arbitrary pressure fields; every quantity is read a second time after the others; non-trivial = at least one T>0, "
         ">=2 non-acoustic modes (distinct gamma), and non-uniform weights when nq>1; distinct by (structure, seed, strains)")
 ASSUMPTIONS = [
     "reference free energy differentiated numerically in 80-bit floats (7-point stencils, per-mode adaptive step); "
@@ -116,6 +116,14 @@ def oracle(ctx, full):
             if val.shape != p.shape or not np.all(ok):
                 raise PropertyViolation("C01/offdiagonal/pressure-term",
                                         "value_isothermal - zp - th differs from P_total - P_static", case)
+        # the parts read again after the total (and the total read again) are the arrays read before: properties of one
+        # object do not change each other
+        for nm, first, again in (("zero_point_contribution", zp, np.array(obj.zero_point_contribution)),
+                                 ("thermal_contribution", th, np.array(obj.thermal_contribution)),
+                                 ("value_isothermal", val, np.array(obj.value_isothermal))):
+            if first.shape != again.shape or not np.array_equal(first, again, equal_nan=True):
+                raise PropertyViolation("C01/%s/changed-by-reading" % full["kind"], "%s read again after the other quantities differs from its first reading (max change %.3g)" % (
+                    nm, float(np.nanmax(np.abs(first - again))) if first.shape == again.shape else float("nan")), case)
         # thermal part exactly zero at T = 0
         z = T == 0
         if np.any(z) and not np.all(th[z, :] == 0.0):
